@@ -1753,6 +1753,8 @@ Proof. intros a b f p [_ [A2 _]]. rewrite A2. lia. Qed.
 Lemma is_fault_omap : forall X Y (k : X -> Y) o, is_fault (omap k o) = is_fault o.
 Proof. intros X Y k [x|f|f]; reflexivity. Qed.
 
+Ltac lens H := repeat first [ rewrite app_length in H | rewrite b16_len in H | progress (cbn [List.length] in H) ].
+
 Section Main.
   Variable ops : numops.
   Variable orc : oracles.
@@ -2201,6 +2203,293 @@ Section Main.
         { eapply exec_push; [eapply exec_pool; [exact Hp1|exact HA]|
                              eapply exec_pool; [exact (ext_pool_ext _ _ _ _ E3)|exact HB]]. }
         exact HC.
+    Qed.
+
+    (* ---- the three jump schemes ---- *)
+    Definition branch_agree (br : aexpr + bool) : Prop := match br with inl e => sagree e | inr _ => True end.
+    Definition branch_eval (br : aexpr + bool) : M val := match br with inl e => eval f e | inr b => ret (VBool b) end.
+
+    Lemma branch_case : forall br st st' frag pf t o, branch_agree br -> wf st ->
+      comp_branch ops orc fe br st = COk st' -> ext st st' frag pf -> branch_eval br = (t, o) -> is_fault o = false ->
+      eventually (fun F => exec F (pc st) frag (pool_of st') t [] (omap (fun v => [SV v]) o)).
+    Proof.
+      intros [e|b] st st' frag pf t o Hb W Hc E He Hnf; cbn [comp_branch branch_eval branch_agree] in *.
+      - eapply IH; eassumption.
+      - inversion He; subst. apply ev_all. intros F. cbn [omap]. eapply leaf_const; eassumption.
+    Qed.
+
+    Lemma branch_ext_all : forall br, branch_ext ops orc fe br.
+    Proof. intros [e|b]; cbn; [apply compile_ext|exact I]. Qed.
+
+    Lemma ext_pool_ext2 : forall st a b fa pa fb q, ext st a fa pa -> ext st b fb (pa ++ q) -> pool_ext (pool_of a) (pool_of b).
+    Proof.
+      intros st a b fa pa fb q Ea Eb. exists q. rewrite (ext_pool _ _ _ _ Eb), (ext_pool _ _ _ _ Ea), app_assoc. reflexivity.
+    Qed.
+
+    Lemma cond_case : forall c bt be st st' frag pf t o,
+      sagree c -> branch_agree bt -> branch_agree be -> wf st ->
+      comp_cond ops orc fe c bt be st = COk st' -> ext st st' frag pf ->
+      ((exists t1 cb t2, eval f c = (t1, OVal (VBool cb)) /\ branch_eval (if cb then bt else be) = (t2, o) /\ t = t1 ++ t2) \/
+       (exists k, eval f c = (t, OFail k) /\ o = OFail k)) ->
+      is_fault o = false ->
+      eventually (fun F => exec F (pc st) frag (pool_of st') t [] (omap (fun v => [SV v]) o)).
+    Proof.
+      intros c bt be st st' frag pf t o Hc Hbt Hbe W Hcomp E He Hnf.
+      destruct (comp_cond_inv ops orc fe c bt be st st' W (compile_ext ops orc fe c) (branch_ext_all bt) (branch_ext_all be) Hcomp)
+        as [st1 [st3 [st4 [st6 [st7 [fc [pc' [ft [pt [fe' [pe [Hc1 [E1 [E03 [Hc4 [E4 [E06 [Hc7 [E7 E']]]]]]]]]]]]]]]]]]].
+      destruct (ext_inj _ _ _ _ _ _ E E') as [Hf Hp]. subst frag pf.
+      pose proof (ext_wf _ _ _ _ W E03) as W3. pose proof (ext_wf _ _ _ _ W E06) as W6.
+      pose proof (ext_trans _ _ _ _ _ _ _ E03 E4) as E04. pose proof (ext_trans _ _ _ _ _ _ _ E06 E7) as E07.
+      assert (P1 : pool_ext (pool_of st1) (pool_of st')).
+      { eapply (ext_pool_ext2 st st1 st'); [exact E1|exact E']. }
+      assert (P4 : pool_ext (pool_of st4) (pool_of st')).
+      { eapply (ext_pool_ext2 st st4 st'); [exact E04|]. rewrite <- app_assoc. exact E'. }
+      assert (P7 : pool_ext (pool_of st7) (pool_of st')).
+      { eapply (ext_pool_ext2 st st7 st' _ _ _ []); [exact E07|]. rewrite app_nil_r, <- app_assoc. exact E'. }
+      pose proof (ext_pc _ _ _ _ E03) as Q3. pose proof (ext_pc _ _ _ _ E06) as Q6. pose proof (ext_pc _ _ _ _ E07) as Q7.
+      pose proof (ext_pc _ _ _ _ E4) as Q4.
+      lens Q3. lens Q4. lens Q6. lens Q7.
+      destruct He as [[t1 [cb [t2 [Hec [Heb Ht]]]]]|[k [Hec Ho]]].
+      2:{ subst o. pose proof (IH c _ _ _ _ _ _ Hc W Hc1 E1 Hec eq_refl) as Ex.
+          refine (ev_mono _ _ _ Ex). intros F HA. cbn [omap] in *.
+          apply exec_seq_fail. eapply exec_pool; [exact P1|exact HA]. }
+      pose proof (IH c _ _ _ _ _ _ Hc W Hc1 E1 Hec eq_refl) as Ex. subst t.
+      destruct cb.
+      - (* condition true: the first branch, then the jump over the second *)
+        pose proof (branch_case _ _ _ _ _ _ _ Hbt W3 Hc4 E4 Heb Hnf) as Et.
+        refine (ev_mono _ _ _ (ev_and _ _ Ex Et)). intros F [HA HB]. cbv beta in HA, HB. cbn [omap] in HA.
+        eapply exec_seq; [eapply exec_pool; [exact P1|exact HA]|].
+        change (op_byte OP_IF_TRUE :: b16 (cs_clen st6) ++ ft ++ op_byte OP_JUMP :: b16 (cs_clen st7) ++ fe')
+          with ((op_byte OP_IF_TRUE :: b16 (cs_clen st6)) ++ ft ++ op_byte OP_JUMP :: b16 (cs_clen st7) ++ fe').
+        rewrite <- (app_nil_l t2).
+        eapply exec_seq; [apply exec_if_true|].
+        destruct o as [v|k|k]; cbn [omap] in *.
+        + rewrite <- (app_nil_r t2).
+          eapply exec_seq.
+          * eapply exec_pool; [exact P4|]. replace (pc st + List.length fc + List.length (op_byte OP_IF_TRUE :: b16 (cs_clen st6)))%nat
+              with (pc st3); [exact HB|]. cbn [List.length]. rewrite b16_len. lia.
+          * pose proof (exec_frame ops orc rho F
+                          (pc st + List.length fc + List.length (op_byte OP_IF_TRUE :: b16 (cs_clen st6)) + List.length ft)%nat
+                          (op_byte OP_JUMP :: b16 (cs_clen st7) ++ fe') (pool_of st') [] [] (OVal []) [SV v]) as HJ.
+            cbn [omap app] in HJ. apply HJ. apply exec_jump.
+            cbn [List.length]. rewrite app_length, !b16_len. lia.
+        + apply exec_seq_fail. eapply exec_pool; [exact P4|].
+          replace (pc st + List.length fc + List.length (op_byte OP_IF_TRUE :: b16 (cs_clen st6)))%nat
+              with (pc st3); [exact HB|]. cbn [List.length]. rewrite b16_len. lia.
+        + discriminate.
+      - (* condition false: jump to the second branch *)
+        pose proof (branch_case _ _ _ _ _ _ _ Hbe W6 Hc7 E7 Heb Hnf) as Ee.
+        refine (ev_mono _ _ _ (ev_and _ _ Ex Ee)). intros F [HA HB]. cbv beta in HA, HB. cbn [omap] in HA.
+        eapply exec_seq; [eapply exec_pool; [exact P1|exact HA]|].
+        replace (op_byte OP_IF_TRUE :: b16 (cs_clen st6) ++ ft ++ op_byte OP_JUMP :: b16 (cs_clen st7) ++ fe')
+          with ((op_byte OP_IF_TRUE :: b16 (cs_clen st6) ++ (ft ++ op_byte OP_JUMP :: b16 (cs_clen st7))) ++ fe').
+        2:{ cbn [app]. rewrite <- !app_assoc. cbn [app]. reflexivity. }
+        rewrite <- (app_nil_l t2).
+        eapply exec_seq.
+        + apply exec_if_false. cbn [List.length]. rewrite !app_length, b16_len. cbn [List.length]. rewrite b16_len. lia.
+        + eapply exec_pool; [exact P7|].
+          replace (pc st + List.length fc +
+                   List.length (op_byte OP_IF_TRUE :: b16 (cs_clen st6) ++ ft ++ op_byte OP_JUMP :: b16 (cs_clen st7)))%nat
+            with (pc st6); [exact HB|].
+          cbn [List.length]. rewrite !app_length, b16_len. cbn [List.length]. rewrite b16_len. lia.
+    Qed.
+
+    Lemma cond_form : forall c (K : bool -> M val) t o,
+      mbind (eval f c) (fun cv => mbind (as_bool cv) K) = (t, o) -> is_fault o = false ->
+      (exists t1 cb t2, eval f c = (t1, OVal (VBool cb)) /\ K cb = (t2, o) /\ t = t1 ++ t2) \/
+      (exists k, eval f c = (t, OFail k) /\ o = OFail k).
+    Proof.
+      intros c K t o He Hnf.
+      destruct (mbind_inv _ _ _ _ _ _ He Hnf) as [[t1 [cv [t2 [Hec [Hr Ht]]]]]|[kf [Hec Ho]]].
+      - left. destruct cv; try (cbn in Hr; inversion Hr; subst; discriminate).
+        cbn [as_bool] in Hr. rewrite mbind_ret_l in Hr. exists t1, b, t2. auto.
+      - right. exists kf. auto.
+    Qed.
+
+    Lemma recheck_bool : forall (m : M val) t o,
+      mbind m (fun bv => let^ bb := as_bool bv in ret (VBool bb)) = (t, o) -> is_fault o = false -> m = (t, o).
+    Proof.
+      intros [tm [v|k|k]] t o H Hnf.
+      - destruct v; cbn in H; inversion H; subst; try discriminate. rewrite !app_nil_r. reflexivity.
+      - cbn in H. exact H.
+      - cbn in H. exact H.
+    Qed.
+
+    Lemma lazy_builtin_call : forall sg b args, intrinsic_cbn sg = Some b -> is_lazy_builtin b = true ->
+      call_m ops orc fe rho f sg args = apply_lazy sg (map (fun x (_ : unit) => eval f x) args) /\
+      classify (s_name sg) (s_params sg) = Some b.
+    Proof.
+      intros sg b args Hcbn Hlz. destruct (cbn_info sg b Hcbn) as [Hb [Hcl [_ Hl]]].
+      unfold call_m. rewrite Hl, Hlz, Hb. auto.
+    Qed.
+
+    Lemma case_call_if : forall sg c a b st st' frag pf t o,
+      sagree c -> sagree a -> sagree b -> wf st -> intrinsic_cbn sg = Some BIf ->
+      comp_cond ops orc fe c (inl a) (inl b) st = COk st' -> ext st st' frag pf ->
+      call_m ops orc fe rho f sg [c; a; b] = (t, o) -> is_fault o = false ->
+      eventually (fun F => exec F (pc st) frag (pool_of st') t [] (omap (fun v => [SV v]) o)).
+    Proof.
+      intros sg c a b st st' frag pf t o Hc Ha Hb W Hcbn Hcomp E He Hnf.
+      destruct (lazy_builtin_call sg BIf [c; a; b] Hcbn eq_refl) as [Hcall Hcl]. rewrite Hcall in He.
+      unfold apply_lazy in He. rewrite Hcl in He. cbn [map] in He.
+      eapply (cond_case c (inl a) (inl b)); try eassumption.
+      destruct (cond_form _ _ _ _ He Hnf) as [[t1 [cb [t2 [H1 [H2 H3]]]]]|H]; [|right; exact H].
+      left. exists t1, cb, t2. repeat split; try assumption. destruct cb; exact H2.
+    Qed.
+
+    Lemma case_call_and : forall sg x y st st' frag pf t o,
+      sagree x -> sagree y -> wf st -> intrinsic_cbn sg = Some BAnd ->
+      comp_cond ops orc fe x (inl y) (inr false) st = COk st' -> ext st st' frag pf ->
+      call_m ops orc fe rho f sg [x; y] = (t, o) -> is_fault o = false ->
+      eventually (fun F => exec F (pc st) frag (pool_of st') t [] (omap (fun v => [SV v]) o)).
+    Proof.
+      intros sg x y st st' frag pf t o Hx Hy W Hcbn Hcomp E He Hnf.
+      destruct (lazy_builtin_call sg BAnd [x; y] Hcbn eq_refl) as [Hcall Hcl]. rewrite Hcall in He.
+      unfold apply_lazy in He. rewrite Hcl in He. cbn [map] in He.
+      eapply (cond_case x (inl y) (inr false)); try eassumption; [exact I|].
+      destruct (cond_form _ _ _ _ He Hnf) as [[t1 [cb [t2 [H1 [H2 H3]]]]]|H]; [|right; exact H].
+      left. exists t1, cb, t2. repeat split; try assumption. destruct cb; cbn [branch_eval].
+      - apply recheck_bool; assumption.
+      - exact H2.
+    Qed.
+
+    Lemma case_call_or : forall sg x y st st' frag pf t o,
+      sagree x -> sagree y -> wf st -> intrinsic_cbn sg = Some BOr ->
+      comp_cond ops orc fe x (inr true) (inl y) st = COk st' -> ext st st' frag pf ->
+      call_m ops orc fe rho f sg [x; y] = (t, o) -> is_fault o = false ->
+      eventually (fun F => exec F (pc st) frag (pool_of st') t [] (omap (fun v => [SV v]) o)).
+    Proof.
+      intros sg x y st st' frag pf t o Hx Hy W Hcbn Hcomp E He Hnf.
+      destruct (lazy_builtin_call sg BOr [x; y] Hcbn eq_refl) as [Hcall Hcl]. rewrite Hcall in He.
+      unfold apply_lazy in He. rewrite Hcl in He. cbn [map] in He.
+      eapply (cond_case x (inr true) (inl y)); try eassumption; [exact I|].
+      destruct (cond_form _ _ _ _ He Hnf) as [[t1 [cb [t2 [H1 [H2 H3]]]]]|H]; [|right; exact H].
+      left. exists t1, cb, t2. repeat split; try assumption. destruct cb; cbn [branch_eval].
+      - exact H2.
+      - apply recheck_bool; assumption.
+    Qed.
+
+    (* ---- deferred arguments ---- *)
+    Definition nonfault (o : outcome val) : Prop := is_fault o = false.
+    Lemma nonfault_val : forall v, nonfault (OVal v).
+    Proof. reflexivity. Qed.
+
+    Definition thr (F : nat) (pool : list const) (x : aexpr) (sv : sval) : Prop :=
+      exists body rt, sv = STh body rt /\ m_rel nonfault (eval f x) (vm_run ops orc rho pool None F body).
+
+    Lemma thunks_of : forall F pool args xs, Forall2 (thr F pool) args xs ->
+      exists ths, mmapM (thunk_of (vm_run ops orc rho pool None F)) xs = ret ths /\
+                  Forall2 (th_rel nonfault) (map (fun x (_ : unit) => eval f x) args) ths.
+    Proof.
+      intros F pool args xs H. induction H as [|x sv args xs [body [rt [Hsv Hrel]]] _ [ths [Hm Hf]]].
+      - exists []. split; [reflexivity|constructor].
+      - subst sv. exists ((fun _ : unit => vm_run ops orc rho pool None F body) :: ths). split.
+        + rewrite mmapM_cons. cbn [thunk_of]. rewrite mbind_ret_l, Hm, mbind_ret_l. reflexivity.
+        + cbn [map]. constructor; [exact Hrel|exact Hf].
+    Qed.
+
+    Lemma thunk_rel : forall x st sub fx px, sagree x -> wf st ->
+      compile x (cs_empty (cs_rpool st) (cs_plen st)) = COk sub ->
+      ext (cs_empty (cs_rpool st) (cs_plen st)) sub fx px ->
+      eventually (fun F => forall pool, pool_ext (pool_of sub) pool ->
+                    m_rel nonfault (eval f x) (vm_run ops orc rho pool None F (fx ++ [op_byte OP_RETURN]))).
+    Proof.
+      intros x st sub fx px Hx W Hc Ex.
+      destruct (eval f x) as [tx ox] eqn:Hev. destruct (is_fault ox) eqn:Hf.
+      - apply ev_all. intros F pool _ t o Heq Hq. inversion Heq; subst. unfold nonfault in Hq. congruence.
+      - destruct (IH x _ _ _ _ _ _ Hx (wf_empty _ W) Hc Ex Hev Hf) as [F0 H0].
+        exists (S F0). intros F HF pool Hp t o Heq _. inversion Heq; subst t o.
+        destruct F as [|F]; [lia|]. eapply exec_run; [|exact Hp|exact Hf].
+        apply (H0 F). lia.
+    Qed.
+
+    Lemma lazy_args : forall sg args i st st1 f1 p1, Forall sagree args -> wf st -> s_lazy sg = true ->
+      comp_args ops orc fe sg args i st = COk st1 -> ext st st1 f1 p1 ->
+      exists xs, List.length xs = List.length args /\
+        (forall F, exec F (pc st) f1 (pool_of st1) [] [] (OVal xs)) /\
+        eventually (fun F => forall pool, pool_ext (pool_of st1) pool -> Forall2 (thr F pool) args xs).
+    Proof.
+      intros sg args. induction args as [|x r IHr]; intros i st st1 f1 p1 Hall W Hl Hc E.
+      - cbn in Hc. inversion Hc; subst st1. destruct (ext_inj _ _ _ _ _ _ E (ext_refl st)) as [Hf _]. subst f1.
+        exists []. split; [reflexivity|]. split; [intros F; apply exec_nil|]. apply ev_all. intros F pool _. constructor.
+      - inversion Hall as [|? ? Hx Hr]; subst. cbn [comp_args] in Hc. rewrite Hl in Hc.
+        cinv Hc. rename st0 into sub. cinv Hc. rename st0 into st''.
+        destruct (comp_thunk_inv ops orc fe x st sub st'' _ W (compile_ext ops orc fe x) Hc0 Hc1) as [fx [px [Ex E1]]].
+        pose proof (ext_wf _ _ _ _ W E1) as W''.
+        destruct (comp_args_ext ops orc fe sg r (all_ext r) _ _ _ W'' Hc) as [f2 [p2 E2]].
+        destruct (ext_inj _ _ _ _ _ _ E (ext_trans _ _ _ _ _ _ _ E1 E2)) as [Hf Hp]. subst f1 p1.
+        destruct (IHr _ _ _ _ _ Hr W'' Hl Hc E2) as [xs [Hlen [Hex Hth]]].
+        set (body := fx ++ [op_byte OP_RETURN]) in *. set (rt := thunk_ret sg i) in *.
+        exists (STh body rt :: xs). split; [cbn; rewrite Hlen; reflexivity|].
+        assert (Hsubpool : pool_of sub = pool_of st ++ px).
+        { rewrite (ext_pool _ _ _ _ Ex). reflexivity. }
+        assert (Hpool'' : pool_of st'' = pool_of sub ++ [CThunk body rt]).
+        { rewrite (ext_pool _ _ _ _ E1), Hsubpool, app_assoc. reflexivity. }
+        assert (Hidx : nth_error (pool_of st'') (N.to_nat (cs_plen sub)) = Some (CThunk body rt)).
+        { rewrite Hpool''.
+          assert (Hn : N.to_nat (cs_plen sub) = List.length (pool_of sub)).
+          { rewrite Hsubpool, app_length. destruct Ex as [_ [_ [_ B4]]]. cbn [cs_empty cs_plen] in B4. rewrite B4.
+            destruct W as [_ W2]. rewrite W2. unfold pool_of. rewrite rev_length. lia. }
+          rewrite Hn, nth_error_app2, Nat.sub_diag; [reflexivity|lia]. }
+        split.
+        + intros F. change (STh body rt :: xs) with ([STh body rt] ++ xs).
+          rewrite <- (app_nil_l (@nil event)).
+          pose proof (exec_push ops orc rho F (pc st) (op_byte OP_CONST :: b16 (cs_plen sub)) f2 (pool_of st1) [] []
+                        [STh body rt] (OVal xs)) as HP. cbn [omap] in HP. apply HP.
+          * eapply exec_pool; [exact (ext_pool_ext _ _ _ _ E2)|]. apply exec_thunk. exact Hidx.
+          * rewrite <- (ext_pc _ _ _ _ E1). apply Hex.
+        + pose proof (thunk_rel x st sub fx px Hx W Hc0 Ex) as Hrel.
+          refine (ev_mono _ _ _ (ev_and _ _ Hrel Hth)). intros F [HA HB] pool Hp. cbv beta in HA, HB.
+          constructor; [|apply HB; exact Hp].
+          exists body, rt. split; [reflexivity|]. apply HA.
+          eapply pool_ext_trans; [|exact Hp]. eapply pool_ext_trans; [|exact (ext_pool_ext _ _ _ _ E2)].
+          exists [CThunk body rt]. exact Hpool''.
+    Qed.
+
+    Lemma case_call_lazy : forall sg args st st' frag pf t o,
+      Forall sagree args -> wf st -> s_lazy sg = true ->
+      (let+ st1 := comp_args ops orc fe sg args O st in
+       match intrinsic_cbv sg with
+       | Some o => COk (emit_op o st1)
+       | None =>
+           let o := if s_lazy sg then OP_CALL_BY_NEED else OP_CALL_BY_VALUE in
+           let+ st2 := emit_const (CFun sg) (emit_op o st1) in
+           emit8 (N.of_nat (len args)) st2
+       end) = COk st' ->
+      ext st st' frag pf -> call_m ops orc fe rho f sg args = (t, o) -> is_fault o = false ->
+      eventually (fun F => exec F (pc st) frag (pool_of st') t [] (omap (fun v => [SV v]) o)).
+    Proof.
+      intros sg args st st' frag pf t o Hall W Hl Hc E He Hnf.
+      cinv Hc. rename st0 into st1.
+      destruct (intrinsic_cbv sg) as [op|] eqn:Hcbv.
+      { destruct (cbv_info sg op Hcbv) as [_ [Hl' _]]. congruence. }
+      rewrite Hl in Hc. cbv zeta in Hc. cinv Hc. rename st0 into st2.
+      destruct (comp_args_ext ops orc fe sg args (all_ext args) _ _ _ W Hc0) as [f1 [p1 E1]].
+      pose proof (ext_wf _ _ _ _ W E1) as W1.
+      apply const_instr_ext in Hc1. destruct Hc1 as [E2 _]. apply emit8_ext in Hc. destruct Hc as [E3 _].
+      pose proof (ext_trans _ _ _ _ _ _ _ E2 E3) as E23.
+      destruct (ext_inj _ _ _ _ _ _ E (ext_trans _ _ _ _ _ _ _ E1 E23)) as [Hf Hp]. subst frag pf.
+      assert (Hidx : nth_error (pool_of st') (N.to_nat (cs_plen st1)) = Some (CFun sg)).
+      { eapply pool_ext_nth; [exact (ext_pool_ext _ _ _ _ E3)|]. apply (pool_new_nth _ _ _ _ W1 E2). }
+      destruct (lazy_args sg args O st st1 f1 p1 Hall W Hl Hc0 E1) as [xs [Hlen [Hex Hth]]].
+      refine (ev_mono _ _ _ Hth). intros F HT. cbv beta in HT.
+      intros code pool c2 s Hsk Hp. cbn [rev app].
+      assert (Hp1 : pool_ext (pool_of st1) pool).
+      { eapply pool_ext_trans; [exact (ext_pool_ext _ _ _ _ E23)|exact Hp]. }
+      destruct (thunks_of F pool args xs (HT pool Hp1)) as [ths [Hm Hrel]].
+      assert (Hlazy : lazy_m (vm_run ops orc rho pool None F) sg xs = (t, o)).
+      { unfold lazy_m. rewrite Hm, mbind_ret_l.
+        unfold call_m in He. rewrite Hl in He.
+        exact (lazy_rel nonfault nonfault_val sg _ _ Hrel t o He Hnf). }
+      rewrite <- (app_nil_l t). rewrite <- app_assoc in Hsk.
+      eapply runs_seq.
+      - apply (Hex F code pool _ s Hsk Hp1).
+      - cbn [omap rev app]. rewrite omap_omap. cbn [rev app].
+        unfold len. rewrite <- Hlen.
+        change ((op_byte OP_CALL_BY_NEED :: b16 (cs_plen st1)) ++ [N.of_nat (List.length xs)])
+          with (op_byte OP_CALL_BY_NEED :: b16 (cs_plen st1) ++ [N.of_nat (List.length xs)]).
+        apply instr_call_by_need with (sg := sg); [|exact Hlazy].
+        exact (pool_ext_nth _ _ _ _ Hp Hidx).
     Qed.
   End Step.
 End Main.
